@@ -41,7 +41,9 @@ func main() {
 	var ids []string
 	if *prop == "all" {
 		for id := range registry {
-			ids = append(ids, id)
+			if strings.HasPrefix(id, "C") {
+				ids = append(ids, id)
+			}
 		}
 		sort.Strings(ids)
 	} else {
